@@ -11,6 +11,8 @@ import (
 	"testing"
 	"testing/synctest"
 	"time"
+
+	"github.com/whawty/auth/zzverif/simrt"
 )
 
 // ---------------------------------------------------------------------------------
@@ -51,6 +53,7 @@ func inBubble(r *Run, f func(rr *randRecorder)) {
 	var pan any
 	var stack string
 	rr := newRandRecorder(r.T.Seed)
+	simrt.NextEpoch() // package-level simsync state of the code under test starts afresh
 	prev := crand.Reader
 	crand.Reader = rr
 	defer func() { crand.Reader = prev }()
